@@ -303,6 +303,7 @@ func (P *Prog) replayViolation(entry string, v *Violation) ReplayResult {
 	if err != nil {
 		return ReplayResult{Status: "engine-unconfirmed", Output: err.Error()}
 	}
+	S.FallbackMs = P.cfg.SolverTimeoutMs
 	defer S.Close()
 	p := P.newPath(S, v.Prefix)
 	p.pinned = v.Values
